@@ -73,7 +73,7 @@ ForeignFactors(g) == {OneVar(SupWhole(v), 1) : v \in GridVariants(g)}
 PrimCases(e) ==
   {[op |-> "OpApply", tag |-> "prim", ast |-> e, a |-> a, fs |-> <<>>, fshare |-> 1] :
      a \in UNION {UNION {UnitVar(S, o) \cup TwoVar(S, o) : o \in OrdersOp} :
-                  S \in UNION {SupportsOn(g) : g \in GridsOp \cup {N5}}}}
+                  S \in UNION {SupportsOn(g) : g \in (IF e.k = "X" /\ e.n >= 5 THEN {E4} ELSE GridsOp \cup {N5})}}}
 
 ExprCases(e) ==
   IF ~HasSpl(e)
